@@ -14,6 +14,18 @@ TRUSTED_BASE = {
 }
 
 PROPS = {
+    "C09": {
+        "tests": ["TestC09"],
+        "design_ref": "DESIGN.md §3.9",
+        "level_text": "TODO",
+        "level_note": "TODO",
+    },
+    "C07": {
+        "tests": ["TestC07"],
+        "design_ref": "DESIGN.md §3.7",
+        "level_text": "TODO",
+        "level_note": "TODO",
+    },
     "C17": {
         "tests": ["TestC17"],
         "design_ref": "DESIGN.md §3.17",
